@@ -26,11 +26,18 @@ REQUIRED_THEOREMS = [
     "C17_mean_circular_on_circle", "C17_windowed_circular_on_circle", "C17_move_target_is_source", "C17_moved_from_out_of_scope",
 ]
 RULE = ("operation sequences on one object; kind est: ops from {extract/2, extract/5, setMethod(12 methods), "
-        "setMobileAverageWindowSize(w in {-1,0,1,2,3,5,29,30,31,100} and 2..8), clear, move-construct, move-assign}, particle "
+        "setMobileAverageWindowSize(w in {-1,0,1,2,3,5,29,30,31,100} and 2..8), clear, move-construct, move-assign, std::vector growth (from fresh and used objects)}, particle "
         "sets N in 1..20 (8% of the calls 21..200) with linear 0..3 + circular 0..2 rows (15% up to 8 + 5); per-case flavour: plain "
         "(normalised log-weights, unique maximum), zeros (exact zero weights = -inf, also all previous weights -inf), ties (exact ties "
         "in weights / map scores), unnormalised (outside the premise: correspondence and the un-normalised clauses), cancel (pairs of "
-        "opposite phasors, relative resultant down to 1e-7, tolerances scaled by 1/resultant, skipped and counted above 1e-3), single "
+        "opposite phasors, relative resultant down to 1e-7), spread (C17-r7: headings evenly spaced with one heavier particle / three at 0, "
+        "+-2pi/3 with one off / antipodal pairs / closed polygons of random weights, imbalance 1e-11.5..1e-6.5, as particle sets for mean and the "
+        "windowed means and as window histories for all nine windowed methods, where every particle of call i carries the heading h_i), units (35% "
+        "of the plain/zeros/unnormalised cases: every linear coordinate in its own unit 1e-12..1e12, likelihoods 1e-300..1e5, transition "
+        "densities 1e-150..1e3 also per previous particle, log-weights down to -1000), twin (30%: an independent object with another window / "
+        "method / data extracts between the subject's calls); every tolerance is derived per row from the case (linear: (n+4)u sum|w x|; "
+        "circular: rounding of the two weighted sums, (n+8)u sum|w|, over the modulus of the resultant, reference in 80-bit extended precision; "
+        "circular rows whose derived tolerance exceeds 1e-3 rad are excluded and counted), single "
         "(one particle / one stored estimate at 7.0 / -9.5 rad: principal value expected); likelihoods / transition matrices with zeros; kind hb: ops from {add, set(w), dec, "
         "inc, clear, move-construct, move-assign}; "
         "both tiers start with a hand-picked corpus (inputs of past failures, saturation, unsigned wrap, shared history) and end "
@@ -43,7 +50,7 @@ TRUSTED_BASE = ["Coq 8.16.1 kernel (coqc); list/nat theorems closed under the gl
                 "standard axioms of Coq's Reals (sig_forall_dec, sig_not_dec, functional_extensionality_dep, classic)",
                 "C19_ROps.v (R instance of SOps; atan2 defined from atan, polar contract proved) and C19_Model.v (dir_mean)",
                 "extraction (ExtrOcamlBasic only) and ocaml/float_ops.ml, ocaml/drv_C17.ml, ocaml/caseio.ml",
-                "cpp/h_C17.cpp harness (protected members reached by subclassing), props/C17.py oracle (numpy closed forms) and tolerances",
+                "cpp/h_C17.cpp harness (protected members reached by subclassing), props/C17.py oracle (numpy closed forms, reference sums and map scores in 80-bit extended precision) and the derived tolerances (circ_tol, lin_tol)",
                 "correspondence is sampled: agreement is established on the generated operation sequences only",
                 "IEEE rounding is not modelled (theorems over R); std::exp/log/sin/cos/atan2 are taken as the real functions"]
 ASSUMPTIONS = ["particles has linear+circular rows and as many columns as weights has entries (likelihoods, transition rows likewise); "
@@ -79,28 +86,58 @@ def win_weights(v, n):
     return e / e.sum()
 
 
+U = 2.0 ** -53          # unit round-off of IEEE doubles
+LD = np.longdouble      # 80-bit extended (eps 1.08e-19): the reference sums are evaluated there
+CIRC_FLOOR = 1e-12      # rad: no circular clause is judged finer than this
+CIRC_LIMIT = 1e-3       # rad: a circular clause whose derived tolerance exceeds this is excluded and counted
+
+
+def circ_tol(n, sumw, R, sides=1, extra=0):
+    """Bound on the error of arg(sum_k w_k e^{j a_k}) evaluated in doubles, derived from the case: each of the two weighted
+    sums carries at most (n + 8) u sum|w| (n - 1 additions, the product, exp of the log-weight and sin / cos at one ulp
+    each, with margin), so the resultant moves by at most sqrt(2) times that and its argument by asin(move / |resultant|);
+    plus the rounding of atan2.  `sides` = 2 when two double evaluations are compared with each other, `extra` = further relative error of the
+    weights in units of u (window weights that each side computes itself)."""
+    if not (R > 0) or not math.isfinite(R):
+        return math.inf if not (R > 0) else 4e-15
+    x = sides * math.sqrt(2.0) * (n + 8 + extra) * U * sumw / R
+    return (math.asin(x) if x < 1.0 else math.inf) + 2e-15
+
+
+def lin_tol(Prow, w, sides=1):
+    """Bound on the error of sum_k w_k x_k in doubles (any summation order): (n + 4) u sum|w_k x_k|."""
+    return sides * (Prow.size + 4) * U * float(np.sum(np.abs(w) * np.abs(Prow)))
+
+
 def wmean(P, w, lin, circ):
-    """Weighted mean of the columns of P with linear-domain weights w: (values, per circular row the length of the
-    resultant relative to the total weight = the conditioning of the directional mean; inf for a single column)."""
+    """Weighted mean of the columns of P with linear-domain weights w, evaluated in extended precision:
+    (values, per circular row the modulus of the resultant sum_k w_k e^{j a_k} (inf for a single column),
+    per row the derived tolerance of ONE double evaluation of that row)."""
     d = lin + circ
-    out, res = np.zeros(d), []
-    if lin:
-        out[:lin] = P[:lin] @ w
+    out, res, tol = np.zeros(d), [], np.zeros(d)
+    n = P.shape[1]
+    wl = np.asarray(w, LD)
+    sumw = float(np.sum(np.abs(wl)))
+    for r in range(lin):
+        out[r] = float(np.sum(wl * np.asarray(P[r], LD)))
+        tol[r] = lin_tol(P[r], np.asarray(w, float))
     for r in range(lin, d):
-        if P.shape[1] == 1:
+        a = np.asarray(P[r], LD)
+        if n == 1:
             # directional_mean, one column: the principal value of the angle (/repo dee9c81)
-            out[r] = math.atan2(math.sin(P[r, 0]), math.cos(P[r, 0])); res.append(math.inf)
+            out[r] = float(np.arctan2(np.sin(a[0]), np.cos(a[0]))); res.append(math.inf); tol[r] = 4e-15
         else:
-            s, c = float(w @ np.sin(P[r])), float(w @ np.cos(P[r]))
-            tot = float(np.sum(np.abs(w)))
-            out[r] = math.atan2(s, c); res.append(math.hypot(s, c) / tot if tot > 0 else 0.0)
-    return out, res
+            s, c = np.sum(wl * np.sin(a)), np.sum(wl * np.cos(a))
+            R = float(np.hypot(s, c))
+            out[r] = float(np.arctan2(s, c)); res.append(R); tol[r] = circ_tol(n, sumw, R)
+    return out, res, tol
 
 
 def map_scores(PW, L, T):
-    """(lik_i + eps) * sum_j (T_ij + eps) * exp(pw_j), in the linear domain."""
+    """(lik_i + eps) * sum_j (T_ij + eps) * exp(pw_j), in the linear domain, in extended precision (exponent range
+    1e-4932: densities that underflow as a product in doubles do not underflow here)."""
     eps = np.finfo(float).tiny
-    return (L + eps) * ((T + eps) @ np.exp(PW))
+    return np.asarray(np.asarray(L + eps, LD) * (np.asarray(T + eps, LD) @ np.exp(np.asarray(PW, LD))), LD)
 
 
 def circ_diff(a, b):
@@ -111,32 +148,51 @@ NEAR_BOUNDARY_SKIPPED = 0
 OUTSIDE_PROPERTY = 0
 
 
-def vec_close(a, b, lin, res, scale, tol=1e-10):
-    """Linear rows absolutely (scaled), circular rows modulo 2 pi with a tolerance inversely proportional to the
-    resultant length (rows whose resultant is shorter than 1e-6 are skipped and counted).
-    Returns (True | "linear" | "circular" = first failing kind of row, skipped_near_boundary, worst)."""
+CIRC_JUDGED_SHORT = 0
+WORST_RATIO = {"oracle-linear": 0.0, "oracle-circular": 0.0, "corr-linear": 0.0, "corr-circular": 0.0}   # max difference / tolerance seen
+
+
+def _ratio(key, d, t):
+    if t > 0 and math.isfinite(d):
+        WORST_RATIO[key] = max(WORST_RATIO[key], d / t)
+
+
+def vec_close(a, b, lin, tols, res=None):
+    """a = what the implementation returned, b = the extended-precision reference, tols = the derived tolerance of every
+    row (wmean).  Linear rows absolutely; circular rows modulo 2 pi, never finer than CIRC_FLOOR; a circular row whose
+    derived tolerance exceeds CIRC_LIMIT (resultant at the round-off level: no defined mean) is skipped and counted.
+    Returns (True | "linear" | "circular" = first failing kind of row, skipped, worst excess, text)."""
     a, b = np.asarray(a, float).reshape(-1), np.asarray(b, float).reshape(-1)
     if a.shape != b.shape:
-        return "linear", 0, math.inf
-    global NEAR_BOUNDARY_SKIPPED
-    worst, skipped, ok = 0.0, 0, True
+        return "linear", 0, math.inf, "shape"
+    global NEAR_BOUNDARY_SKIPPED, CIRC_JUDGED_SHORT
+    worst, skipped, ok, txt = 0.0, 0, True, ""
     for r in range(a.size):
         if r < lin:
-            d = abs(a[r] - b[r]); t = tol * max(1.0, scale)
+            d = abs(a[r] - b[r]); t = 2.0 * tols[r]
+            if not (np.isfinite(a[r]) and np.isfinite(b[r])):
+                d = 0.0 if (a[r] == b[r] or (np.isnan(a[r]) and np.isnan(b[r]))) else math.inf
         else:
-            R = res[r - lin]
-            if R < 1e-6:
+            t = max(2.0 * tols[r], CIRC_FLOOR)
+            if not (t <= CIRC_LIMIT):
                 skipped += 1; NEAR_BOUNDARY_SKIPPED += 1; continue
-            d = abs(circ_diff(a[r], b[r])); t = tol * max(1.0, 1.0 / R)
+            d = abs(circ_diff(a[r], b[r]))
+            if not np.isfinite(d):
+                d = math.inf
+            if res is not None and res[r - lin] < 1e-6:
+                CIRC_JUDGED_SHORT += 1
+        _ratio("oracle-linear" if r < lin else "oracle-circular", d, t)
         if not (d <= t):
-            ok = ("linear" if r < lin else "circular") if ok is True else ok
+            if ok is True:
+                ok = "linear" if r < lin else "circular"
+                txt = "row %d: |difference| %.3g, derived tolerance %.3g" % (r, d, t)
         worst = max(worst, d)
-    return ok, skipped, worst
+    return ok, skipped, worst, txt
 
 
 # ------------------------------------------------------------------ generators
 
-def norm_logw(rng, n, peaked=False, zeros=False, ties=False, unnormalised=False):
+def norm_logw(rng, n, peaked=False, zeros=False, ties=False, unnormalised=False, tiny=False):
     """Log-weights.  Default: normalised, unique maximum.  zeros: some weights exactly 0 (log-weight -inf);
     ties: the maximum is attained several times (exactly); unnormalised: the weights do not sum to one
     (outside the property's premise: correspondence and the un-normalised clauses only)."""
@@ -158,7 +214,14 @@ def norm_logw(rng, n, peaked=False, zeros=False, ties=False, unnormalised=False)
         s = np.sort(w)
         if n == 1 or ties or (s[-1] - s[-2]) > 1e-6 * s[-1]:
             with np.errstate(divide="ignore"):
-                return np.log(w)
+                lw = np.log(w)
+            if tiny and n > 2 and not unnormalised:
+                # weights far below the round-off of the others, down to where exp underflows (log-weight < -745):
+                # still a normalised set to double precision
+                for j in rng.sample(range(n), rng.randint(1, n - 2)):
+                    if lw[j] < lw.max():
+                        lw[j] = -rng.uniform(40.0, 1000.0)
+            return lw
 
 
 class EstGen:
@@ -172,11 +235,17 @@ class EstGen:
         self.centre = [rng.uniform(-math.pi, math.pi) for _ in range(circ)]
         self.spread = rng.choice([0.05, 0.5, 1.0])
         self.wrapk = rng.choice([0, 0, 1, -2])      # some cases carry angles outside (-pi, pi]
+        # physical units: every linear coordinate in its own unit over 24 orders of magnitude; likelihoods / transition
+        # densities of any magnitude (their product underflows in doubles; the code works in the log domain)
+        self.units = flavour in ("plain", "zeros", "unnormalised") and rng.random() < 0.35
+        self.rowscale = np.array([10 ** rng.uniform(-12, 12) for _ in range(lin)]) if self.units else np.full(lin, self.scale)
+        self.lmag = 10 ** rng.uniform(-300, 5) if self.units else 1.0
+        self.tmag = 10 ** rng.uniform(-150, 3) if self.units else 1.0
 
     def particles(self, n):
         g = gen.nprng(self.rng)
         P = np.zeros((self.lin + self.circ, n))
-        P[:self.lin] = g.standard_normal((self.lin, n)) * self.scale
+        P[:self.lin] = g.standard_normal((self.lin, n)) * self.rowscale.reshape(-1, 1)
         for r in range(self.circ):
             P[self.lin + r] = self.centre[r] + g.uniform(-self.spread, self.spread, n) + TWO_PI * self.wrapk
         return P
@@ -190,14 +259,16 @@ class EstGen:
             return rng.randint(1, 20)
         return rng.randint(21, 200)
 
-    def extract_operands(self, c, k, five):
+    def extract_operands(self, c, k, five, P=None, W=None):
         rng = self.rng
-        n = self.draw_n()
-        P = self.particles(n)
+        n = self.draw_n() if P is None else P.shape[1]
+        P = self.particles(n) if P is None else P
         fl = self.flavour
         u = rng.random()
-        W = norm_logw(rng, n, peaked=u < 0.2, zeros=(fl == "zeros" and rng.random() < 0.7),
-                      ties=(fl == "ties" and rng.random() < 0.7), unnormalised=(fl == "unnormalised"))
+        if W is None:
+            W = norm_logw(rng, n, peaked=u < 0.2, zeros=(fl == "zeros" and rng.random() < 0.7),
+                          ties=(fl == "ties" and rng.random() < 0.7), unnormalised=(fl == "unnormalised"),
+                          tiny=(self.units and rng.random() < 0.5))
         if fl == "cancel" and self.circ and n >= 2 and rng.random() < 0.7:
             # pairs of opposite phasors with equal weights: resultant of the order of delta
             delta = 10 ** rng.uniform(-7, -1)
@@ -218,8 +289,10 @@ class EstGen:
                 PW = norm_logw(rng, m, zeros=(fl == "zeros" and rng.random() < 0.5), unnormalised=(fl == "unnormalised"))
                 if fl == "zeros" and rng.random() < 0.1:
                     PW = np.full(m, -math.inf)      # all previous weights zero: log_sum_exp is NaN (outside the property)
-                L = g.uniform(0.0, 1.0, n) * 10 ** rng.uniform(-3, 1)
-                T = g.uniform(0.0, 1.0, (n, m))
+                L = g.uniform(0.0, 1.0, n) * 10 ** rng.uniform(-3, 1) * self.lmag
+                T = g.uniform(0.0, 1.0, (n, m)) * self.tmag
+                if self.units and rng.random() < 0.3:
+                    T = T * np.array([10 ** rng.uniform(-100, 0) for _ in range(m)])      # per previous particle
                 if rng.random() < 0.3:
                     L[g.uniform(size=n) < 0.2] = 0.0
                     T[g.uniform(size=(n, m)) < 0.2] = 0.0
@@ -246,6 +319,8 @@ def est_case(rng, cid, lin, circ, tokens, tag, flavour=None):
     c = caseio.Case(cid, "est", {"lin": lin, "circ": circ, "tag": tag, "nops": len(tokens), "flavour": flavour})
     c.word("ops", tokens)
     eg = EstGen(rng, lin, circ, flavour, big=(0.0 if tag == "exh" else 0.08))
+    c.meta["units"] = int(eg.units)
+    c.meta["twin"] = int(rng.random() < 0.3)      # an independent twin object works between the subject's calls (cpp/h_C17.cpp)
     for k, o in enumerate(tokens):
         if o in ("e2", "e5"):
             eg.extract_operands(c, k, o == "e5")
@@ -256,9 +331,160 @@ def hb_case(rng, cid, d, tokens, tag):
     c = caseio.Case(cid, "hb", {"d": d, "tag": tag, "nops": len(tokens)})
     c.word("ops", tokens)
     g = gen.nprng(rng)
+    units = np.array([10 ** rng.uniform(-300, 300) for _ in range(d)]) if rng.random() < 0.3 else None
     for k, o in enumerate(tokens):
         if o == "a":
-            c.mat_shape("X%d" % k, d, 1, g.standard_normal(d) * 3)
+            c.mat_shape("X%d" % k, d, 1, g.standard_normal(d) * (3 if units is None else units))
+    return c
+
+# ---- short but well defined resultants (C17-r7): headings (almost) evenly spread over the circle / antipodal / closing a
+#      polygon of the weights, with an imbalance of 1e-11.5 .. 1e-6.5 in one weight or one angle
+
+def closed_polygon(rng, v):
+    """angles a_k with sum_k v_k e^{j a_k} = 0 up to rounding, for positive v with max(v) <= sum(v) / 2 (None otherwise)."""
+    v = np.asarray(v, float)
+    m = v.size
+    if m < 2 or 2 * v.max() > v.sum() * (1 + 1e-12):
+        return None
+    if m == 2:
+        t = rng.uniform(-math.pi, math.pi)
+        return np.array([t, t + math.pi])
+    p, q = v[m - 2], v[m - 1]
+    for _ in range(200):
+        a = np.array([rng.uniform(-math.pi, math.pi) for _ in range(m)])
+        S = complex(np.sum(v[:m - 2] * np.cos(a[:m - 2])), np.sum(v[:m - 2] * np.sin(a[:m - 2])))
+        r = abs(S)
+        if r > (p + q) * (1 + 1e-12) or r < abs(p - q) * (1 - 1e-12):
+            continue
+        if r < 1e-300:
+            a[m - 1] = a[m - 2] + math.pi
+            return a
+        phi = math.atan2(-S.imag, -S.real)
+        cA = max(-1.0, min(1.0, (r * r + p * p - q * q) / (2 * r * p)))
+        a[m - 2] = phi + rng.choice([-1, 1]) * math.acos(cA)
+        rest = -S - p * complex(math.cos(a[m - 2]), math.sin(a[m - 2]))
+        a[m - 1] = math.atan2(rest.imag, rest.real) if abs(rest) > 0 else a[m - 2]
+        return a
+    return None
+
+
+def resultant(a, v):
+    a, v = np.asarray(a, LD), np.asarray(v, LD)
+    return float(np.hypot(np.sum(v * np.sin(a)), np.sum(v * np.cos(a))))
+
+
+def spread_set(rng, nmax=24):
+    """(headings, linear weights) of a particle set whose resultant is short (about delta) but well defined."""
+    delta = 10 ** rng.uniform(-11.5, -6.5)
+    style = rng.choice(["even", "even", "three", "antipodal", "polygon"])
+    t0 = rng.uniform(-math.pi, math.pi)
+    if style == "even":
+        n = rng.randint(3, nmax)
+        a = t0 + TWO_PI * np.arange(n) / n
+        w = np.ones(n); w[rng.randrange(n)] += delta * n
+    elif style == "three":
+        a = t0 + np.array([0.0, TWO_PI / 3, -TWO_PI / 3]); w = np.ones(3)
+        a[rng.randrange(3)] += 3 * delta * rng.choice([-1, 1])
+    elif style == "antipodal":
+        h = rng.randint(1, max(1, nmax // 2))
+        b = np.array([rng.uniform(-math.pi, math.pi) for _ in range(h)])
+        wh = np.array([rng.random() + 0.05 for _ in range(h)])
+        a, w = np.concatenate([b, b + math.pi]), np.concatenate([wh, wh])
+        j = rng.randrange(2 * h)
+        if rng.random() < 0.5:
+            w[j] *= 1 + delta * w.sum() / w[j]
+        else:
+            a[j] += delta * w.sum() / w[j]
+    else:
+        n = rng.randint(3, nmax)
+        while True:
+            w = np.array([rng.random() + 0.05 for _ in range(n)])
+            a = closed_polygon(rng, w)
+            if a is not None:
+                break
+        j = rng.randrange(n)
+        a[j] += delta * w.sum() / w[j]
+    perm = list(range(a.size)); rng.shuffle(perm)
+    a, w = a[perm], w[perm]
+    a = a + TWO_PI * rng.choice([0, 0, 0, 1, -2])
+    return a, w / w.sum(), style
+
+
+def spread_history(rng, var, m):
+    """headings h_0 .. h_{m-1} in CALL order such that the window weights of variant `var` over the m stored estimates
+    (newest first) give a short resultant."""
+    v = win_weights(var, m)
+    delta = 10 ** rng.uniform(-11.5, -6.5)
+    a = closed_polygon(rng, v)
+    if a is None:
+        return None
+    j = rng.randrange(m)
+    a[j] += delta / v[j] * rng.choice([-1, 1])
+    return a[::-1].copy()        # column m-1 (oldest) is the first call
+
+
+def spread_case(rng, cid, tag="spread"):
+    lin, circ = rng.randint(0, 2), rng.randint(1, 2)
+    eg = EstGen(rng, lin, circ, "plain")
+    g = gen.nprng(rng)
+    toks, plan = [], {}
+    if rng.random() < 0.5:
+        # particle sets with a short resultant: plain mean and the base estimate of the windowed means
+        meth = rng.choice(["mean", "mean", "smean", "wmean", "emean"])
+        toks = ["m:" + meth] + (["w:%d" % rng.randint(2, 6)] if rng.random() < 0.4 else [])
+        for _ in range(rng.randint(1, 4)):
+            sets = [spread_set(rng) for _ in range(circ)]
+            # all circular rows share the weights of the first one: the other rows get a set of the same size built on them
+            a0, w, _ = sets[0]
+            P = np.zeros((lin + circ, a0.size))
+            P[:lin] = g.standard_normal((lin, a0.size)) * eg.rowscale.reshape(-1, 1)
+            P[lin] = a0
+            for r in range(1, circ):
+                if rng.random() < 0.5:
+                    P[lin + r] = eg.centre[r] + g.uniform(-0.5, 0.5, a0.size)       # an ordinary row next to the spread one
+                else:
+                    P[lin + r] = a0[::-1] + rng.uniform(-3, 3)
+            plan[len(toks)] = (P, np.log(w))
+            toks.append(rng.choice(["e2", "e5"]))
+            if rng.random() < 0.2:
+                toks.append(rng.choice(["mv", "ma", "m:" + meth]))
+        sub = "set"
+    else:
+        # window histories with a short resultant: every particle of call i has the heading h_i in its circular rows,
+        # so mean, mode and map all store h_i
+        var = rng.choice(["s", "w", "e"]); stat = rng.choice(["mean", "mode", "map"])
+        toks = ["m:" + var + stat]
+        rounds = rng.randint(1, 2)
+        for rd in range(rounds):
+            m = rng.randint(2 if var == "s" else 3, 8)
+            win = m if rng.random() < 0.6 else rng.randint(m, 12)
+            toks.append("w:%d" % win)
+            even = var == "s" and rng.random() < 0.5
+            extra = rng.randint(0, 3) if (even and win == m) else 0
+            if even:
+                d0, sgn, t0 = 10 ** rng.uniform(-11.5, -6.5), rng.choice([-1, 1]), rng.uniform(-math.pi, math.pi)
+                hs = [[t0 + sgn * TWO_PI * i / m + d0 * rng.uniform(-1, 1) for i in range(m + extra)] for _ in range(circ)]
+            else:
+                hs = [spread_history(rng, var, m) for _ in range(circ)]
+            for i in range(m + extra):
+                n = rng.choice([1, 1, 2, 3, 6])
+                P = np.zeros((lin + circ, n))
+                P[:lin] = g.standard_normal((lin, n)) * eg.rowscale.reshape(-1, 1)
+                for r in range(circ):
+                    P[lin + r] = hs[r][i]
+                plan[len(toks)] = (P, None)
+                toks.append("e5" if stat == "map" else rng.choice(["e2", "e5"]))
+                if rng.random() < 0.05:
+                    toks.append(rng.choice(["mv", "ma"]))
+            if rd + 1 < rounds:
+                toks.append("c")
+        sub = "hist"
+    c = caseio.Case(cid, "est", {"lin": lin, "circ": circ, "tag": tag, "nops": len(toks), "flavour": "spread", "sub": sub, "twin": int(rng.random() < 0.3)})
+    c.word("ops", toks)
+    for k, o in enumerate(toks):
+        if o in ("e2", "e5"):
+            P, W = plan[k]
+            eg.extract_operands(c, k, o == "e5", P=P, W=W)
     return c
 
 
@@ -305,9 +531,11 @@ def rand_est_tokens(rng, maxlen):
         elif u < 0.91:
             toks.append("w:%d" % rand_window(rng))
         elif u < 0.95:
-            toks.append(rng.choice(["mv", "ma"]))
+            toks.append(rng.choice(["mv", "ma", "vg"]))
         else:
             toks.append("c")
+    if rng.random() < 0.1:
+        toks.insert(0, rng.choice(["mv", "ma", "vg"]))      # obtained from a FRESH object
     return toks[:maxlen]
 
 
@@ -325,9 +553,11 @@ def rand_hb_tokens(rng, maxlen):
         elif u < 0.92:
             toks.append("i")
         elif u < 0.96:
-            toks.append(rng.choice(["mv", "ma"]))
+            toks.append(rng.choice(["mv", "ma", "vg"]))
         else:
             toks.append("c")
+    if rng.random() < 0.1:
+        toks.insert(0, rng.choice(["mv", "ma", "vg"]))
     return toks
 
 
@@ -356,6 +586,8 @@ def corpus(rng, add, cid0):
         ["c", "a", "c", "c", "a", "a"],
         ["s:5", "a", "s:5", "a"],                                 # early return on an equal request
         ["a", "a", "mv", "a", "s:2", "ma", "a", "a", "d", "mv", "c", "a"],   # the move target goes on as the source would
+        ["vg", "a", "a", "a", "vg", "a", "s:3", "vg", "a", "a", "mv", "vg", "ma", "a"],   # through a growing std::vector, fresh and used
+        ["mv", "ma", "s:4", "a", "a", "a", "a", "a"],
     ]
     for toks in hb:
         add(hb_case(rng, k, 2, toks, "corpus")); k += 1
@@ -370,6 +602,8 @@ def corpus(rng, add, cid0):
         (0, 0, ["m:smean", "e2", "e5", "w:2", "e2"]),                         # empty state vector
         (1, 1, ["m:wmean", "e2", "e2", "mv", "e2", "w:3", "ma", "e5", "m:smap", "mv", "e5", "c", "ma", "e5"]),  # moves
         (5, 4, ["m:emean", "e5", "e5", "m:wmode", "e5", "w:2", "e5"]),        # more rows than 3 + 2
+        (2, 1, ["vg", "m:smean", "e2", "e2", "vg", "e2", "w:2", "vg", "e5", "m:emap", "vg", "e5", "e5", "ma", "vg", "e5"]),   # std::vector growth, fresh and used
+        (1, 1, ["mv", "e2", "ma", "m:wmean", "e2", "e2", "e2"]),              # moved from a fresh object, then used
     ]
     # switching the window family with a FULL buffer and no resize / clear: each family must use ITS OWN weights
     # (sm_weights_, wm_weights_, em_weights_ are three caches; one cache keyed by the length alone would be stale)
@@ -414,9 +648,13 @@ def generate(rng, tier):
             add(hb_case(rng, cid, rng.randint(1, 3), ["s:%d" % rng.choice([29, 30, 31, 100])] + ["a"] * k + ["s:%d" % rng.choice(WINDOWS), "a", "i", "d", "d"], "fill"))
         for _ in range(20):
             add(tie_case(rng, cid))
+        for _ in range(70):
+            add(spread_case(rng, cid))
         return cases
     for _ in range(300):
         add(tie_case(rng, cid))
+    for _ in range(600):
+        add(spread_case(rng, cid))
     # thorough: exhaustive short sequences after a prefill, then random long ones
     hb_alpha = ["a", "d", "i", "c"] + ["s:%d" % w for w in WINDOWS]
     for pre in (0, 1, 3, 6, 31):
@@ -443,6 +681,18 @@ def generate(rng, tier):
         add(est_case(rng, cid, lin, circ, fill_tokens(rng, rng.choice([29, 30, 31, 100]), rng.choice([1, 2, 3, 5]), rng.choice(windowed)), "fill"))
     for _ in range(3000):
         add(hb_case(rng, cid, rng.randint(0, 4), rand_hb_tokens(rng, 60), "random"))
+    return cases
+
+
+def search_cases(rng):
+    """The widened search (vlib/runner.py widen_if_needed): the quick mix once more with another seed, at four times
+    the volume of the classes that need aimed inputs (short resultants, exact ties)."""
+    cases = generate(rng, "quick")
+    cid = len(cases)
+    for _ in range(210):
+        cases.append(spread_case(rng, cid)); cid += 1
+    for _ in range(60):
+        cases.append(tie_case(rng, cid)); cid += 1
     return cases
 
 
@@ -515,7 +765,7 @@ def fields(c):
         out += ["ret%d" % k, "win%d" % k]
         if c.kind == "est":
             out += ["meth%d" % k]
-        if o in ("mv", "ma"):
+        if o in ("mv", "ma", "vg"):
             out.append("movedfrom_win%d" % k)      # 0 by HistoryBuffer.cpp:24/35 (the moved-from object is otherwise out of scope)
     if c.kind == "est":
         out.append("info_window")
@@ -533,11 +783,12 @@ def methods_before(c):
 
 
 def tolerances(c, rec):
-    """Comparison tolerances derived from the constructed conditioning.  Returns per operation
-    (est_tol or None, [tol of every stored column, newest first]) with tol = (linear absolute, circular absolute).
-    A base mean is conditioned by max|x| * sum(w) on linear rows and by 1/(relative resultant length) on circular
-    rows; mode/map estimates are copies of a particle (tolerance 0); a windowed estimate inherits the worst stored
-    column and adds the conditioning of the average over the history."""
+    """Comparison tolerances of the correspondence (two double evaluations), derived per row from the case.  Returns per
+    operation (est_tol or None, [tol of every stored column, newest first]); a tol is a vector with one entry per row.
+    A base mean: twice the one-sided bounds of wmean (linear rows (n+4) u sum|w x|, circular rows circ_tol: rounding of
+    the two weighted sums over the modulus of the resultant); mode/map estimates are copies of a particle (tolerance
+    0); a windowed estimate adds what it inherits from the stored columns: the worst stored linear error, and the
+    worst stored circular error divided by the modulus of the resultant of the history (weights summing to one)."""
     toks, meths = ops_of(c), methods_before(c)
     lin, circ = int(c.meta["lin"]), int(c.meta["circ"])
     d = lin + circ
@@ -550,26 +801,24 @@ def tolerances(c, rec):
             meth = meths[k]; st, var = STAT[meth], VAR[meth]
             W = colvec(c, "W%d" % k); P = opmat(c, "P%d" % k).reshape(d, W.size)
             if st == "mean":
-                w = np.exp(W)
-                ls = max(1.0, float(np.max(np.abs(P[:lin]))) if lin else 1.0) * max(1.0, float(w.sum()))
-                res = wmean(P, w, lin, circ)[1]
-                cc = max([1.0] + [1.0 / max(r, 1e-300) for r in res])
-                base = (1e-11 * ls, 1e-10 * cc)
+                base = 2.0 * wmean(P, np.exp(np.asarray(W, LD)), lin, circ)[2]
             else:
-                base = (0.0, 0.0)
+                base = np.zeros(d)
             if st == "map" and o == "e2":
                 est_tol = None
             elif var is None:
                 est_tol = base
             else:
                 cols = ([base] + cols)[:ncols]
-                hl = max(1.0, float(np.max(np.abs(H[:lin]))) if lin and ncols else 1.0)
-                hc = 1.0
-                if ncols > 1 and H.shape[0] == d:
-                    res = wmean(H, win_weights(var, ncols), lin, circ)[1]
-                    hc = max([1.0] + [1.0 / max(r, 1e-300) for r in res])
-                worst_l = max([t[0] for t in cols] + [0.0]); worst_c = max([t[1] for t in cols] + [0.0])
-                est_tol = (1e-11 * hl + worst_l, (1e-10 + worst_c) * hc)
+                est_tol = np.zeros(d)
+                if ncols >= 1 and H.shape[0] == d:
+                    ww = win_weights(var, ncols)
+                    _, res, own = wmean(H, ww, lin, circ)
+                    worst = np.max(np.vstack(cols), axis=0) if cols else np.zeros(d)
+                    est_tol[:lin] = 2.0 * own[:lin] + worst[:lin] + 16 * U * np.abs(H[:lin]) @ ww
+                    for r in range(lin, d):
+                        R = res[r - lin]
+                        est_tol[r] = (circ_tol(ncols, 1.0, R, sides=2, extra=16) + (worst[r] / R if R > 0 else math.inf)) if math.isfinite(R) else 2.0 * own[r] + worst[r]
         cols = cols[:ncols]
         out.append((est_tol, list(cols)))
     return out
@@ -579,27 +828,34 @@ CORR_SKIPPED = 0
 
 
 def _cmp_vec(nm, a, b, lin, tol, diffs):
-    """one estimate / one stored column: linear rows absolutely, circular rows modulo 2 pi"""
+    """one estimate / one stored column: linear rows absolutely, circular rows modulo 2 pi; tol = one entry per row"""
     global CORR_SKIPPED
-    ltol, ctol = tol
-    if lin and a[:lin].size:
-        dl = float(np.max(np.abs(a[:lin] - b[:lin]))) if np.all(np.isfinite(a[:lin])) and np.all(np.isfinite(b[:lin])) else (0.0 if np.array_equal(a[:lin], b[:lin], equal_nan=True) else math.inf)
-        if not (dl <= ltol):
-            diffs.append("%s: linear rows differ by %.3g (tol %.3g)" % (nm, dl, ltol))
-    if a[lin:].size:
-        if ctol > 1e-3:
-            CORR_SKIPPED += 1       # directional mean of nearly cancelling phasors: no meaningful comparison
-            return
-        if np.all(np.isfinite(a[lin:])) and np.all(np.isfinite(b[lin:])):
+    tol = np.asarray(tol, float).reshape(-1)
+    if tol.size != a.size:
+        tol = np.zeros(a.size)
+    for r in range(min(lin, a.size)):
+        if np.isfinite(a[r]) and np.isfinite(b[r]):
+            dl = abs(a[r] - b[r])
+        else:
+            dl = 0.0 if (a[r] == b[r] or (np.isnan(a[r]) and np.isnan(b[r]))) else math.inf
+        _ratio("corr-linear", dl, tol[r])
+        if not (dl <= tol[r]):
+            diffs.append("%s: linear row %d differs by %.3g (tol %.3g)" % (nm, r, dl, tol[r])); break
+    for r in range(lin, a.size):
+        ctol = tol[r] if tol[r] == 0.0 else max(tol[r], CIRC_FLOOR)
+        if not (ctol <= CIRC_LIMIT):
+            CORR_SKIPPED += 1       # resultant at the round-off level: no meaningful comparison
+            continue
+        if np.isfinite(a[r]) and np.isfinite(b[r]):
             # the representative is specified ((-pi, pi]): compare the values themselves; modulo 2 pi only where both
             # sides sit at the +-pi seam, where rounding may pick either end
-            seam = (np.abs(a[lin:]) > math.pi - max(ctol, 1e-9)) & (np.abs(b[lin:]) > math.pi - max(ctol, 1e-9))
-            dd = np.where(seam, np.abs(circ_diff(a[lin:], b[lin:])), np.abs(a[lin:] - b[lin:]))
-            dc = float(np.max(dd))
+            seam = abs(a[r]) > math.pi - max(ctol, 1e-9) and abs(b[r]) > math.pi - max(ctol, 1e-9)
+            dc = abs(circ_diff(a[r], b[r])) if seam else abs(a[r] - b[r])
         else:
-            dc = 0.0 if np.array_equal(a[lin:], b[lin:], equal_nan=True) else math.inf
+            dc = 0.0 if (a[r] == b[r] or (np.isnan(a[r]) and np.isnan(b[r]))) else math.inf
+        _ratio("corr-circular", dc, ctol)
         if not (dc <= ctol):
-            diffs.append("%s: circular rows differ by %.3g (tol %.3g)" % (nm, dc, ctol))
+            diffs.append("%s: circular row %d differs by %.3g (tol %.3g)" % (nm, r, dc, ctol)); break
 
 
 def compare(c, impl, model):
@@ -631,8 +887,8 @@ def compare(c, impl, model):
                 # C17_map_score_meaning on doubles: coded log-score = log((lik+eps) * sum_j (T_ij+eps) w_j)
                 sc = map_scores(colvec(c, "PW%d" % k), colvec(c, "L%d" % k), opmat(c, "T%d" % k).reshape(colvec(c, "L%d" % k).size, colvec(c, "PW%d" % k).size))
                 mv = np.asarray(model.get("spec_mapvalues%d" % k), float).reshape(-1)
-                good = sc > 1e-290
-                if mv.shape != sc.shape or not caseio.close(mv[good], np.log(sc[good]), 1e-9, 0):
+                good = sc > 0
+                if mv.shape != sc.shape or not caseio.close(mv[good], np.log(sc[good]).astype(float), 1e-9, 0):
                     diffs.append("spec_mapvalues%d: coded score differs from log of the product form" % k)
             if nm.startswith(("smw", "wmw", "emw")):
                 if not caseio.close(a, b, 1e-12, 1e-12):
@@ -649,7 +905,7 @@ def compare(c, impl, model):
                 _cmp_vec(nm, a.reshape(-1), b.reshape(-1), lin, est_tol, diffs)
             else:
                 for j in range(a.shape[1]):
-                    _cmp_vec("%s[:,%d]" % (nm, j), a[:, j], b[:, j], lin, col_tols[j] if j < len(col_tols) else (0.0, 0.0), diffs)
+                    _cmp_vec("%s[:,%d]" % (nm, j), a[:, j], b[:, j], lin, col_tols[j] if j < len(col_tols) else np.zeros(a.shape[0]), diffs)
     return diffs
 
 
@@ -720,7 +976,7 @@ def oracle(c, impl, model):
             exp_hist = np.hstack([x.reshape(-1, 1), hist])[:, :win]
             if nwin != win or not np.array_equal(nhist, exp_hist):
                 bad("add-pushes-front", "window %d, %d stored before: %d after, expected %d with the new element first" % (win, stored, nhist.shape[1], exp_hist.shape[1]), k)
-        elif o in ("mv", "ma"):
+        elif o in ("mv", "ma", "vg"):
             # the move target goes on exactly as the source was (the moved-from object is out of scope)
             same = ret == 1 and nwin == win and np.array_equal(nhist, hist)
             if est_kind:
@@ -740,7 +996,6 @@ def oracle(c, impl, model):
             P = opmat(c, "P%d" % k).reshape(d, W.size)
             est = np.asarray(impl.get("est%d" % k), float).reshape(-1) if impl.has("est%d" % k) else None
             st, var = STAT[meth], VAR[meth]
-            scale = max(1.0, float(np.max(np.abs(P[:lin]))) if lin else 1.0) * max(1.0, float(np.exp(W).sum()))
             if est is None or est.size != d:
                 bad("extract:estimate-size", "estimate has %s entries, state size %d" % (None if est is None else est.size, d), k)
             elif st == "map" and o == "e2":
@@ -752,18 +1007,19 @@ def oracle(c, impl, model):
                 if ret != 1:
                     bad("extract:unavailable", "method %s, %s reported no estimate" % (meth, o), k)
                 # ---- base statistic of this call
-                base, bres, base_ok = None, [math.inf] * circ, True
+                base, bres, btol = None, [math.inf] * circ, None
                 if st == "mean":
-                    base, bres = wmean(P, np.exp(W), lin, circ)
+                    base, bres, btol = wmean(P, np.exp(np.asarray(W, LD)), lin, circ)
                 elif st == "mode":
                     pass
                 target = est if var is None else (nhist[:, 0] if nhist.shape[1] else None)
                 if target is None:
                     bad("windowed:history-empty", "no estimate stored by a windowed extract", k)
                 elif st == "mean":
-                    ok, sk, worst = vec_close(target, base, lin, bres, scale)
+                    ok, sk, worst, txt = vec_close(target, base, lin, btol, bres)
                     if ok is not True:
-                        bad("mean:%s-rows" % ok, "base estimate differs from the weighted %s mean by %.3g" % ("arithmetic" if ok == "linear" else "circular", worst), k)
+                        short = ok == "circular" and min(bres + [1.0]) < 1e-6
+                        bad("mean:%s-rows%s" % (ok, ":short-resultant" if short else ""), "base estimate differs from the weighted %s mean of the %d particles (%s; resultant moduli %s)" % ("arithmetic" if ok == "linear" else "circular", P.shape[1], txt, ["%.3g" % x for x in bres]), k)
                     base = target
                 else:
                     global OUTSIDE_PROPERTY
@@ -774,12 +1030,18 @@ def oracle(c, impl, model):
                     elif degenerate:
                         OUTSIDE_PROPERTY += 1     # all previous weights zero: every coded score is NaN; correspondence only
                     else:
-                        score = W if st == "mode" else map_scores(colvec(c, "PW%d" % k), colvec(c, "L%d" % k), opmat(c, "T%d" % k).reshape(W.size, colvec(c, "PW%d" % k).size))
+                        if st == "mode":
+                            score = W
+                        else:
+                            # log of the product form, from extended precision (no underflow of the product): the relative
+                            # margin 1e-9 of the scores is an absolute one on their logarithms
+                            with np.errstate(divide="ignore"):
+                                score = np.log(map_scores(colvec(c, "PW%d" % k), colvec(c, "L%d" % k), opmat(c, "T%d" % k).reshape(W.size, colvec(c, "PW%d" % k).size))).astype(float)
                         best = float(np.max(score))
                         got = max(float(score[j]) for j in idx)
-                        margin = 0.0 if st == "mode" else 1e-9 * abs(best)
+                        margin = 0.0 if st == "mode" else 1e-9
                         if got < best - margin:
-                            bad("%s:not-a-maximiser" % st, "returned particle %s has score %.17g, the maximum is %.17g (particle %d)" % (idx, got, best, int(np.argmax(score))), k)
+                            bad("%s:not-a-maximiser" % st, "returned particle %s has (log-)score %.17g, the maximum is %.17g (particle %d)" % (idx, got, best, int(np.argmax(score))), k)
                         else:
                             # C17_mode_is_max / C17_map_is_argmax: among equal maxima the FIRST one (Eigen's visitor uses >).
                             # mode: the log-weights themselves; map: the coded scores as the extracted model computes them
@@ -831,11 +1093,11 @@ def oracle(c, impl, model):
                             bad("single-column-not-principal-value:windowed", "one stored estimate: %s returned for %s" % (est[lin:], nhist[lin:, 0]), k)
                         # ---- the estimate is that convex combination of the stored estimates
                         if wok:
-                            spec, sres = wmean(nhist, ww, lin, circ)
-                            hscale = max(1.0, float(np.max(np.abs(nhist[:lin]))) if lin else 1.0)
-                            ok, sk, worst = vec_close(est, spec, lin, sres, hscale)
+                            spec, sres, stol = wmean(nhist, np.exp(np.asarray(cw, LD)) if cw.size == n else ww, lin, circ)
+                            ok, sk, worst, txt = vec_close(est, spec, lin, stol, sres)
                             if ok is not True:
-                                bad("windowed-not-convex-combination:%s:%s:%s-rows" % (var, phase, ok), "method %s, %d stored (window %d): estimate differs from the %s average of the stored estimates by %.3g" % (meth, n, win, nm, worst), k)
+                                short = ok == "circular" and min(sres + [1.0]) < 1e-6
+                                bad("windowed-not-convex-combination:%s:%s:%s-rows%s" % (var, phase, ok, ":short-resultant" if short else ""), "method %s, %d stored (window %d): estimate differs from the %s average of the stored estimates (%s; resultant moduli %s)" % (meth, n, win, nm, txt, ["%.3g" % x for x in sres]), k)
         # post-state as observed
         win, hist = nwin, nhist
         if est_kind:
@@ -863,7 +1125,8 @@ def on_crash(c, info, model):
 
 def histogram(cases):
     h = {"kind": {}, "tag": {}, "ops": {}, "max_stored": {}, "shrunk_nonempty": 0, "state_shape": {},
-         "near_boundary_skipped": NEAR_BOUNDARY_SKIPPED, "correspondence_skipped_ill_conditioned": CORR_SKIPPED,
+         "near_boundary_skipped": NEAR_BOUNDARY_SKIPPED, "circular_rows_judged_with_resultant_below_1e-6": CIRC_JUDGED_SHORT,
+         "worst_difference_over_derived_tolerance": {k: round(x, 4) for k, x in WORST_RATIO.items()}, "correspondence_skipped_ill_conditioned": CORR_SKIPPED,
          "map_calls_outside_property_all_previous_weights_zero": OUTSIDE_PROPERTY, "flavour": {},
          # informational: sequences on which the literal count min(calls since clear, window) is not the stored count
          # (always after a window change, see C17_min_calls_window_refuted); the exact count is what the oracle checks
@@ -882,6 +1145,8 @@ def histogram(cases):
         h["max_stored"][b] = h["max_stored"].get(b, 0) + 1
         h["shrunk_nonempty"] += 1 if shrunk else 0
         if c.kind == "est":
+            h["units"] = h.get("units", 0) + int(c.meta.get("units", 0))
+            h["with_twin_object"] = h.get("with_twin_object", 0) + int(c.meta.get("twin", 0))
             s = "lin=%s circ=%s" % (c.meta["lin"], c.meta["circ"])
             h["state_shape"][s] = h["state_shape"].get(s, 0) + 1
     return h
